@@ -74,15 +74,16 @@ Proof. exact Fmt0Proof.nexp_no_double_minus. Qed.
 Print Assumptions C01_L0_no_double_minus.
 
 (* (e) L0: the text the whole-formatter model prints lexes back to exactly the tokens it printed, for every
-   well-formed program of the fragment, every indentation setting (an indent width of zero excluded) and quote style;
+   well-formed program of the fragment, every indentation setting (an indent width of zero excluded), quote style, call_parentheses and
+   space_after_function_names value;
    with comments the line ending must be LF (full_moon makes the CR of a CR LF behind a line comment part of the
    comment: the text is the same, the token list is not).  Proved through LexAdj.adj_relex: every printed token is
    compatible with the first character of what follows it. *)
 From SV Require LexAdj Fmt0Lex.
 Theorem C01_L0_output_lexes_back_to_the_printed_tokens : forall v, Lex.vjit v = false -> forall c,
-  (Fmt0.spaces0 c = true -> Fmt0.width0 c <> 0) -> forall p, Fmt0Lex.wfb v (Fmt0.style0 c) c p ->
+  (Fmt0.spaces0 c = true -> Fmt0.width0 c <> 0) -> forall p, Fmt0Lex.wfb v c p ->
   Lex.lex_loop v (S (List.length (LexRender.render (Fmt0.pprog c p)))) (LexRender.render (Fmt0.pprog c p)) = Some (Fmt0.pprog c p).
-Proof. intros v Hj c Hw p W. exact (Fmt0Lex.pprog_relexes v Hj (Fmt0.style0 c) c eq_refl Hw p W). Qed.
+Proof. intros v Hj c Hw p W. exact (Fmt0Lex.pprog_relexes v Hj c Hw p W). Qed.
 Print Assumptions C01_L0_output_lexes_back_to_the_printed_tokens.
 Theorem C01_adjacent_token_checker_is_sound : forall v, Lex.vjit v = false -> forall ts,
   List.Forall (LexAdj.wf_tok v) ts -> LexAdj.adj_ok ts None = true ->
@@ -90,11 +91,11 @@ Theorem C01_adjacent_token_checker_is_sound : forall v, Lex.vjit v = false -> fo
 Proof. exact LexAdj.adj_relex. Qed.
 Print Assumptions C01_adjacent_token_checker_is_sound.
 (* ... and end to end: for a program that is well formed in the structural sense (every unary node a tree the parser can
-   return), what format0 prints - normalisation included - lexes back to the tokens of the normalised program *)
+   return), what format0 prints - both passes (parentheses, call form) included - lexes back to the tokens of the normalised program *)
 Theorem C01_L0_formatted_text_lexes_back : forall v, Lex.vjit v = false -> forall c,
   (Fmt0.spaces0 c = true -> Fmt0.width0 c <> 0) -> forall p, Fmt0Lex.wfb1 v c p ->
-  Lex.lex_loop v (S (List.length (Fmt0.format0 c p))) (Fmt0.format0 c p) = Some (Fmt0.pprog c (Fmt0.nprog p)).
-Proof. intros v Hj c Hw p W. exact (Fmt0Lex.format0_relexes v Hj (Fmt0.style0 c) c eq_refl Hw p W). Qed.
+  Lex.lex_loop v (S (List.length (Fmt0.format0 c p))) (Fmt0.format0 c p) = Some (Fmt0.pprog c (Fmt0.norm0 c p)).
+Proof. intros v Hj c Hw p W. exact (Fmt0Lex.format0_relexes v Hj c Hw p W). Qed.
 Print Assumptions C01_L0_formatted_text_lexes_back.
 (* the hypotheses are met by a concrete program with a comment, a guarded double minus, a call and a nested block *)
 Theorem C01_L0_example_meets_the_hypotheses : Fmt0Lex.wfb1 Fmt0Lex.v51 Fmt0Lex.cfg_example Fmt0Lex.prog_example.
